@@ -1,0 +1,32 @@
+//go:build verif
+// +build verif
+
+package rac
+
+// Exported wrappers around the unexported rNode methods of chunk_reader.go,
+// for the /verif C15 correspondence check. Compiled only with -tags verif.
+//
+// The node argument is copied into a zeroed rNode (a [4096]byte), so that
+// bytes beyond len(node) are zero.
+
+func verifNode(node []byte) *rNode {
+	b := &rNode{}
+	copy(b[:], node)
+	return b
+}
+
+// VerifNodeValid is rNode.valid.
+func VerifNodeValid(node []byte) bool { return verifNode(node).valid() }
+
+// VerifNodeFind is rNode.findChunkContaining.
+func VerifNodeFind(node []byte, dOff int64, dBias int64) int {
+	return verifNode(node).findChunkContaining(dOff, dBias)
+}
+
+// VerifNodeChunk is rNode.chunk.
+func VerifNodeChunk(node []byte, i int, cBias int64, dBias int64) Chunk {
+	return verifNode(node).chunk(i, cBias, dBias)
+}
+
+// VerifNodeCodec is rNode.codec.
+func VerifNodeCodec(node []byte) Codec { return verifNode(node).codec() }
